@@ -206,8 +206,13 @@ def call(fn, *a, **k):
         return Raised(e)
     except Exception as e:
         return Raised(e)
-    finally:
-        reset_options()
+    # (global options are NOT reset here: what a call leaves behind in dimarray's rcParams must stay visible to the following calls of the
+    # same case, as it would in a user's program; the engine resets them between cases - see engine.safe_check)
+
+
+def leaked_options():
+    """options whose value differs from the defaults recorded at import time"""
+    return {k: da.rcParams.get(k) for k, v in DEFAULT_OPTIONS.items() if da.rcParams.get(k) != v}
 
 
 def wellformed(a):
